@@ -17,6 +17,7 @@ HARNESS = os.path.join(VERIF, "harness")
 TARGET = os.path.join(BUILD, "harness-target")
 DRIVER = os.path.join(LEAN, ".lake", "build", "bin", "tdmodel")
 ALLOWED_AXIOMS = {"propext", "Classical.choice", "Quot.sound"}
+MAX_DEATHS = 6
 
 sys.path.insert(0, VERIF)
 import gen  # noqa: E402
@@ -181,14 +182,18 @@ def run_harness(binary, cases, tag):
     os.makedirs(BUILD, exist_ok=True)
     results = [None] * len(cases)
     start = 0
+    deaths = 0
     while start < len(cases):
+        if deaths >= MAX_DEATHS:
+            # the implementation keeps dying / hanging: enough evidence, do not spend minutes on more of the same
+            break
         path = os.path.join(BUILD, f"run_{tag}_{os.getpid()}.case")
         with open(path, "w") as f:
             for c in cases[start:]:
                 f.write("\n".join(c) + "\n")
         nlines = sum(len(c) for c in cases[start:])
         try:
-            r = subprocess.run([binary, path], capture_output=True, text=True, timeout=max(60, nlines / 200))
+            r = subprocess.run([binary, path], capture_output=True, text=True, timeout=max(20, nlines / 500))
             out, died = r.stdout, (r.returncode != 0)
             kind = "abort"
         except subprocess.TimeoutExpired as e:
@@ -203,6 +208,7 @@ def run_harness(binary, cases, tag):
             results[idx] = obs[k:k + len(cases[idx])]
             k += len(cases[idx]); idx += 1
         if idx < len(cases) and died:
+            deaths += 1
             # case idx was interrupted
             part = obs[k:]
             results[idx] = part + [kind] + [None] * (len(cases[idx]) - len(part) - 1)
